@@ -301,4 +301,17 @@ def specFrame (c : Cfg) (B : Bank α) (X : Int → α) (k : Nat) : List α :=
 def spec (c : Cfg) (B : Bank α) (x : List α) : List (List α) :=
   (List.range ((x.length + c.S / 2) / c.S)).map (specFrame c B (sigZ x))
 
+/-! ### the ring the driver computes in: Gaussian integers (real banks have zero imaginary parts) -/
+
+structure GInt where
+  re : Int
+  im : Int
+  deriving Repr, DecidableEq
+
+instance : Add GInt := ⟨fun a b => ⟨a.re + b.re, a.im + b.im⟩⟩
+instance : Mul GInt := ⟨fun a b => ⟨a.re * b.re - a.im * b.im, a.re * b.im + a.im * b.re⟩⟩
+instance : Neg GInt := ⟨fun a => ⟨-a.re, -a.im⟩⟩
+instance : Zero GInt := ⟨⟨0, 0⟩⟩
+instance : One GInt := ⟨⟨1, 0⟩⟩
+
 end PdsVerif.Model.Si
